@@ -599,9 +599,15 @@ func (in *c40bInst) evFinish(before map[string]c40bRow) (string, error) {
 			realOpen++
 		}
 	}
+	modelOpen := 0 // lanes with events acknowledged (and not lost) since the last cache loss
+	for _, l := range in.lanes {
+		if l.Cached { // also a durably finalised lane that the cache opened again after a loss
+			modelOpen++
+		}
+	}
 	for _, l := range in.lanes {
 		if l.Lost && !l.Terminal {
-			if realOpen == 0 {
+			if modelOpen == 0 {
 				lostOnly = true
 			} else {
 				partial = true
@@ -632,7 +638,7 @@ func (in *c40bInst) evFinish(before map[string]c40bRow) (string, error) {
 	if lostOnly {
 		return "finish", mc.Violatef("C40:finish-completed-after-cache-loss", "acknowledged cache-only events were dropped by a cache loss and nothing is cached for the message, but finish succeeded (%s seq=%d) and the projection is now %s", res.Status, res.MsgEventSeq, c40bRowsStr(after))
 	}
-	if realOpen == 0 {
+	if modelOpen == 0 {
 		return "finish", mc.Violatef("C40:finish-completed-without-cached-lanes", "finish succeeded although no open lane is cached and its payload carries no snapshot; projection %s", c40bRowsStr(after))
 	}
 	fin, ok := after[metadb.EventKeyFinish]
